@@ -52,15 +52,45 @@ def gen(tier: str, seed: int) -> list[Case]:
         pkg = pg.random_pkg(rng, cfg)
         opts = (["-nc"] if i % 3 == 1 else []) + noise_opts(seed, PID, i)
         cases.append(Case(cid=f"c03-{i}", files=pg.render(pkg), opts=opts, meta={"pkg": pkg}, reach=REACH))
+    # packages without a model (every declaration form of C01's library, its package scenarios): the "nothing is
+    # emitted twice" half - no two declarations of one kind and Python name in one owner, none in two files
+    from ..scenarios import PACKAGE_SCENARIOS
+    from . import c01
+
+    for i in range(3 if tier == "quick" else 60):
+        ks = c01.kitchen_sink(rng_for(seed, PID, "kitchen-sink", i), gated, 170 + i)
+        cases.append(Case(cid=f"c03-kitchen-{i}", files=ks, opts=[["-nc"], [], ["-nc", "--docstyle", "google"], ["--docstyle", "numpydoc"]][i % 4], meta={}, reach=REACH))
+    for k, (feat, sfiles, optsets) in enumerate(PACKAGE_SCENARIOS):
+        if feat in gated:
+            continue
+        files = {"src/" + fk: ({"hex": fv.hex()} if isinstance(fv, bytes) else fv) for fk, fv in sfiles.items()}
+        cases.append(Case(cid=f"c03-scenario-{feat}", files=files, opts=list(optsets[(k + seed) % len(optsets)]), meta={}, reach=REACH))
     return cases
 
 
 def make_judge(chk: Check):
     def judge(case: Case, rec: dict, probe=None) -> list[Viol]:
-        pkg = case.meta["pkg"]
+        pkg = case.meta.get("pkg")
         ss = StubSet(rec["tree"])
         for e in ss.errors.values():
             chk.discarded[f"unparsable-stub:{e.rule}"] += 1
+        if pkg is None:
+            viols = []
+            where_declared: dict = {}
+            for rel, m in ss.files.items():
+                seen = set()
+                for d in m.walk():
+                    key = (d.kind, d.path())
+                    if key in seen:
+                        viols.append(Viol("duplicate-in-file", f"model-free:{d.kind}", {"file": rel, "decl": d.path()}))
+                    seen.add(key)
+                    if d.owner is None:
+                        where_declared.setdefault((m.py_module, d.kind, d.pyname), []).append(rel)
+                    chk.case_ok(f"model-free:{d.kind}", ident=(case.cid, rel, d.path()))
+            for (mod, kind, name), rels in where_declared.items():
+                if len(set(rels)) > 1:
+                    viols.append(Viol("declaration-emitted-twice", f"model-free:{kind}", {"python_module": mod, "name": name, "files": sorted(set(rels))}))
+            return viols
         pubs = pg.publicity(pkg)
         viols = st.judge_presence(chk, pkg, ss, pubs)
         n = sum(1 for _ in pg.walk(pkg))
